@@ -279,6 +279,10 @@ func barrierView(w *waveRec) waveBarriers {
 
 // ---- R1: barrier. expectWaves = wavefronts per group by the launch geometry.
 func (j *judge) checkBarriers(groups []*groupRec, expectWaves int) (maxLate int64) {
+	pre := ""
+	if j.mode == "emu" {
+		pre = "emu_" // emulation: "time" is the position in the instruction stream
+	}
 	for _, gr := range groups {
 		views := map[int]waveBarriers{}
 		maxGen := 0
@@ -304,18 +308,18 @@ func (j *judge) checkBarriers(groups []*groupRec, expectWaves int) (maxLate int6
 					}
 				}
 			}
-			j.rec.Count("barrier_generations", 1)
+			j.rec.Count(pre+"barrier_generations", 1)
 			if arrived > 1 {
 				late := last - first
 				if late > maxLate {
 					maxLate = late
 				}
-				if late >= 100 {
+				if late >= 100 && pre == "" {
 					j.rec.Count("barrier_generations_late_100", 1)
 				}
 			}
 			if arrived < expectWaves {
-				j.rec.Count("barrier_generations_with_wavefronts_missing", 1)
+				j.rec.Count(pre+"barrier_generations_with_wavefronts_missing", 1)
 			}
 			for wi, v := range views {
 				if len(v.bar) < g || v.next[g-1] == never {
